@@ -22,4 +22,20 @@ REG = {
                         "a written batch is Reset before further puts (the node's usage); ValueSize is only required to be 0 for an empty batch",
                         "power-loss (lost un-synced suffix) is not modelled here; see C11"],
     },
+    "C18": {
+        "level": "exploration",
+        "tests": [
+            {"pkg": "./triesim", "run": "TestC18", "quick": 8000, "thorough": 600000, "chunk": 500},
+        ],
+        "rule": ("one evaluation = one seeded history over trie.Trie / trie.SecureTrie / state.Database.OpenTrie (drawn mode): a tape of update/delete/get/hash/commit/"
+                 "triedb disk-commit/cap/reference/dereference/reopen/prove/corrupt-proof/DeriveSha ops over 25 prefix-sharing keys and 13 values (empty=delete, embedded, 32/33/300 bytes, ~40 kB), "
+                 "with faults: restart (fresh trie.Database over the same disk), crash at a drawn prefix of the write log of a Database.Commit, proof corruption (bit flip re-keyed under its new hash, foreign key, dropped node). "
+                 "Oracles vs a map model with one snapshot per committed root: root-canonical (3 construction orders), get-model, reopen, proof-sound, proof-corrupt, stacktrie-eq, commit-crash. "
+                 "non-trivial = >=8 executed ops of >=4 kinds with >=3 keys held at once; distinct = distinct trace digest."),
+        "expect_probes": ["restart", "commit_crash", "proof_bitflip-rekeyed", "absence_proof", "prefix_key_pair", "derive_ge128", "commit_multi_batch"],
+        "components": {"real": ["trie.Trie", "trie.SecureTrie", "trie.StackTrie", "trie.Database", "trie proofs", "types.DeriveSha", "state.Database", "ethdb/memorydb as disk"],
+                       "stub": ["disk write log (harness wrapper recording Put/Delete/batch groups, used to materialise crash-prefix images)"]},
+        "assumptions": ["a proof is a set of nodes addressed by their hash (content-addressed proof db); in-place tampering under the original key is outside the property",
+                        "an interrupted or never disk-committed root may be missing after restart but must never serve a wrong value"],
+    },
 }
